@@ -4,6 +4,14 @@ import json, os
 ROOT = os.path.dirname(os.path.dirname(os.path.abspath(__file__)))
 ALL = ["C%02d" % i for i in range(1, 20)]
 CHECKS = {
+ "C04": dict(cat="exploration", ref="§4 C04",
+   technique="exhaustive enumeration of all 2^24 bus and 2^24 pak addresses x 4 mappers, composing both translation directions on the real functions",
+   text="For every bus address of the whole 24-bit space and every FX Pak Pro address, for each of the four mappers, the real BusAddressToPak/PakAddressToBus are composed and the right-inverse and class/page-offset clauses checked. The input domain is finite and completely enumerated.",
+   note="Trusts the three class-window constants; the $F7-$FF pak mirror is counted as WRAM, as the mapper comments say."),
+ "C05": dict(cat="exploration", ref="§4 C05, Appendix C",
+   technique="exhaustive enumeration of all 2^25 addresses x 4 mappers against an independent region-table model and four structural facets",
+   text="Every bus and pak address of every mapper is evaluated on the real code and checked on five facets: error shape and class windows, the pak reject window, the console-owned map shared by all mappers, 8 KiB page uniformity and byte order in both directions, and class/linear position against a data-table transcription of the documented memory maps.",
+   note="Trusts the region tables of internal/refmap (self-checked for overlap and window overflow at start-up)."),
  "C17": dict(cat="exploration", ref="§4 C17",
    technique="exhaustive enumeration of the entire input domain (2^16 x 256 x 255 MulDiv triples, 2^24 channel triples) against a closed-form reference",
    text="Every input of MulDiv, ToRGB/ToColor15 and Luminosity is executed on the real functions and compared with the closed form min(31, floor(ch*m/d)); monotonicity is checked directly on the implementation. The domain is finite and fully covered, so this is a complete decision for the property, not a sample.",
